@@ -499,6 +499,75 @@ class RegistryImportDirect(RegistryImport):
         return super().body(st, op)
 
 
+class RegistrySameName(Harness):
+    """two threads make the first lookup of the SAME registry name (module already imported, entry not registered yet).
+    Every plain function of the handler module is instrumented, whatever it is called -- a module that builds its
+    hashers on demand (module-level __getattr__, factory helpers) gets its schedule points without being named here;
+    where the module can re-create a hasher object on demand, the object is dropped too before every execution"""
+
+    name = "registry_same_name"
+
+    def __init__(self, ops):
+        self.ops = ops
+        self.names = sorted({op.split(":")[1] for op in ops})
+
+    def _mods(self):
+        import importlib
+
+        import passlib.registry as R
+
+        mods = []
+        for n in self.names:
+            loc = R._locations.get(n)
+            if loc:
+                mods.append(importlib.import_module(loc if isinstance(loc, str) else loc[0]))
+        return mods
+
+    def codes(self):
+        import types
+
+        import passlib.registry as R
+        import passlib.utils.handlers as uh
+
+        cs = [R.get_crypt_handler, R.register_crypt_handler, R._PasslibRegistryProxy.__getattr__, uh.PrefixWrapper.__init__]
+        for m in self._mods():
+            cs += [v for v in vars(m).values() if isinstance(v, types.FunctionType) and v.__module__ == m.__name__]
+        return cs
+
+    def fresh(self):
+        import passlib.registry as R
+
+        for m in self._mods():
+            lazy = "__getattr__" in vars(m)
+            for n in self.names:
+                R._handlers.pop(n, None)
+                if lazy:
+                    vars(m).pop(n, None)
+        for n in self.names:
+            R._handlers.pop(n, None)
+        return {}
+
+    def body(self, st, op):
+        import passlib.hash as PH
+        import passlib.registry as R
+
+        kind, n = op.split(":")
+        if kind == "get":
+            return lambda: R.get_crypt_handler(n).name
+        if kind == "attr":
+            return lambda: getattr(PH, n).name
+        raise KeyError(op)
+
+    def post(self, st):
+        import passlib.registry as R
+
+        out = []
+        for n in self.names:
+            h = R._handlers.get(n)
+            out.append((n, getattr(h, "name", None), all(getattr(m, n, h) is h for m in self._mods())))
+        return tuple(out)
+
+
 class ContextRecords(Harness):
     name = "context_records"
 
@@ -784,6 +853,8 @@ def make_harness(spec):
         return RegistryImport(ops)
     if kind == "registry_import_direct":
         return RegistryImportDirect(ops)
+    if kind == "registry_same_name":
+        return RegistrySameName(ops)
     if kind == "context_records":
         return ContextRecords(ops)
     if kind == "post_init":
@@ -968,6 +1039,10 @@ def harness_specs(quick):
     add("registry", ("dir", "attr"), b2)
     add("registry_import", ("get:ldap_hex_md5", "get:ldap_hex_sha1"), b2)
     add("registry_import", ("attr:roundup_plaintext", "get:roundup_plaintext"), b2)
+    add("registry_same_name", ("get:ldap_sha256_crypt", "get:ldap_sha256_crypt"), b2)
+    add("registry_same_name", ("attr:ldap_des_crypt", "get:ldap_des_crypt"), b2)
+    add("registry_same_name", ("get:ldap_salted_sha1", "attr:ldap_salted_sha1"), b2)
+    add("registry_same_name", ("get:django_bcrypt", "get:django_bcrypt"), 1)
     add("registry_import_direct", ("import", "get:django_salted_sha1"), 1)
     add("registry_import_direct", ("import", "attr:django_pbkdf2_sha256"), 1)
     add("context_records", ("verify_admin", "needs_update_admin"), b2)
